@@ -23,6 +23,27 @@ also written to evidence coverage.measured_max_errors on every run):
   cube files   values that are printable without rounding must be read back bit-identically; arbitrary doubles
                to half a unit of the last printed digit (geometry 5.01e-7 absolute, data 5.01e-6 relative);
                angstrom factor rtol 1e-8 (spec constant truncated at 2e-10, CODATA revisions differ by 7e-10)
+
+Dimensions added by the audit of round 3 (every one is emitted / stated by the specification first):
+  layout       non-integer origins and axes (integer grid / 2^k, exact), origin / axes as integer arrays, 1D nodes that are
+               not sorted, numpy.int64 / numpy.int32 indices and array / list coordinates, ndim / size / shape attributes,
+               large non-cubic shapes with sampled indices (JudgeBig: membership + IndexOf, no enumeration), tensor products
+               of the library's own 1D quadratures (tuple law via node positions -> TLC; weights rtol 8 eps, derived: a
+               product of three doubles in any association differs by <= 2.3 eps, measured 0; separable integral rtol
+               1e-12 of sum |w f|, measured 1.7e-16; a swapped kron order is off by O(1))
+  weights      axes / 2^k with non-zero origin and an int32 shape array (VolumeHomogeneous), the scheme name handed on by
+               from_cube (both return modes) and by from_molecule; default scheme of from_molecule (read from the
+               signature): sum bound, and the Trapezoid value emitted by MC_CubicBox (rtol 1e-12, measured 0;
+               rotate=True 1e-9, measured 8e-16; the mutant without "+1" is off by >= 3e-2)
+  from_molecule argument forms on every 16th (quick) / 5th (thorough) case: repeated call, arguments untouched, integer
+               charges / coordinates, atoms reversed, views; call without options = call with the signature's defaults
+  closest_point query points OUTSIDE the box (clamped rounding is the nearest node: ClampedRoundingFindsNearest), grids
+               scaled by 2^-k and built from integer arrays, the point as list / float32 / int array / repeated
+  cube files   data as 3D array, Fortran order, strided view, float32, integers; integer geometry; no atoms; coordinates
+               wider than the 11.6f field; a file name written twice; arguments untouched
+  interpolation one point vs several vs reversed order (tolerance 2 x the reproduction bound), use_log for several points,
+               repeated call, arguments untouched; grids with negative steps / descending nodes (must reproduce) and
+               non-diagonal axes (must reproduce or raise) - measured on the repaired code: err / tolerance <= 3e-5
 """
 from __future__ import annotations
 
